@@ -964,6 +964,9 @@ func scanImmutX(c *core.Ctx) []ob {
 			if _, isFunc := p.Type().Underlying().(*types.Signature); isFunc {
 				continue
 			}
+			if immutInPlaceOnly[fkey][p.Name()] != nil {
+				continue // decided write site by write site in IMMUT
+			}
 			if ex := immutInPlace[fkey]; ex != nil && (ex[p.Name()] != "" || ex["*"] != "") {
 				continue
 			}
